@@ -24,6 +24,9 @@ def is_positive(fn):
     return fn in POSITIVE or fn.startswith(("CS_FluorLine_Kissel", "CSb_FluorLine_Kissel", "CS_FluorShell_Kissel", "CSb_FluorShell_Kissel"))
 
 
+GENERIC = set()    # "function:type name" of parameters that fell back to a generic value class (reported in the evidence)
+
+
 class Values:
     def __init__(self, h, src, seed):
         self.h = h
@@ -68,7 +71,8 @@ class Values:
             return list(range(-1, 13)) + [INT_MIN]
         if p in ("hard_exit", "exit_status", "status"):
             return [0, 1]
-        raise SystemExit("apisweep: int parameter %r of %s is not classified" % (pname, fn))
+        GENERIC.add("%s:int %s" % (fn, pname))      # a parameter name without a class of its own: generic integers
+        return list(range(-3, 12)) + [100, 1000, INT_MIN, INT_MAX]
 
     # ---- continuous classes
     def doubles(self, pname, fn, z, n):
@@ -98,7 +102,8 @@ class Values:
             return r.sample([0.0, 1.0, 2.0, -1.0, 0.5], min(5, max(1, n // 2))) + [r.uniform(0.01, 2.0) for _ in range(max(1, n // 2))]
         if p in ("weighta", "weightb"):
             return [r.uniform(0.01, 0.99) for _ in range(n)]
-        raise SystemExit("apisweep: double parameter %r of %s is not classified" % (pname, fn))
+        GENERIC.add("%s:double %s" % (fn, pname))
+        return r.sample([-1.0, 0.0, 1e-300, 1e-6, 0.5, 1.0, 10.0, 1e3, 1e300], min(9, max(2, n // 2))) + [10.0 ** r.uniform(-3, 3) for _ in range(max(1, n // 2))]
 
     def strings(self, pname, fn, n):
         p = (pname or "").lower()
@@ -130,7 +135,8 @@ class Values:
             return (r.sample(self.crystal_names, min(len(self.crystal_names), max(1, n))) if self.crystal_names else ["Si"]) + [None, "", "si", "Unobtainium", "x" * 300]
         if p == "file_name":
             return [None, "/nonexistent/file.dat"]
-        raise SystemExit("apisweep: string parameter %r of %s is not classified" % (pname, fn))
+        GENERIC.add("%s:string %s" % (fn, pname))
+        return [None, "", "H2O", "Si", "x" * 300, "\x01"] + (r.sample(self.nist_names, min(len(self.nist_names), 2)) if self.nist_names else [])
 
     def crystals(self, n):
         r = self.rng
